@@ -5,7 +5,7 @@ cd "$(dirname "$0")/.." || exit 2
 git -C /repo diff --quiet || { echo "/repo has uncommitted changes"; exit 2; }
 for d in seeded/*/; do
   pid=$(python3 -c "import json;print(json.load(open('$d/meta.json'))['property'])")
-  git -C /repo apply "$d/patch.diff" || { echo "$d patch does not apply"; continue; }
+  git -C /repo apply "$PWD/$d/patch.diff" || { echo "$d patch does not apply"; continue; }
   for sd in 0 1 2; do
     out=$(VERIF_SEED=$sd timeout 1800 ./check $pid 2>&1)
     n=$(echo "$out" | grep -c '^VIOLATION')
